@@ -90,7 +90,8 @@ def bug_variants():
 
 def walleye_variants():
     bad = []
-    for v, want in (("noanswer", "Temporal"), ("eofspins", "Temporal"), ("fallback", "Temporal"), ("stale", "Temporal"), ("sharedchan", "ChannelFresh")):
+    for v, want in (("noanswer", "Temporal"), ("eofspins", "Temporal"), ("fallback", "Temporal"), ("stale", "Temporal"), ("sharedchan", "ChannelFresh"),
+                    ("latch", "NullMoveOnlyWhenOver"), ("givesup", "DiesOnlyWhenTold")):
         r = vcommon.tlc("Walleye", "MC_Walleye_%s.cfg" % v, workers=8, xmx="8g", timeout=1200)
         ok = bool(re.search(r"Temporal propert(y|ies) .*(was|were) violated", r["out"])) if want == "Temporal" else ("Invariant %s is violated" % want in r["out"])
         if not ok:
